@@ -36,6 +36,7 @@ STRATA = [
     ("bin-straddle", 400, 8000),
     ("bin-zero", 150, 3000),
     ("bin-perfect-large", 150, 3000),
+    ("bin-dup-runs", 600, 10000),
     ("bin-large", 40, 800),
 ]
 REQUIRED_EVENTS = {"any": ["knap.feasible.checked", "knap.objective.checked", "knap.optimal.exact-compared",
@@ -295,6 +296,43 @@ def gen(stratum, rng, tier):
         rng.shuffle(s)
         c = _bin_case(s, p, cap, al)
         c["opt_known"] = k  # total = k*cap and a k-bin packing exists by construction
+        return c
+    if stratum == "bin-dup-runs":
+        # k bins filled exactly from a handful of distinct sizes: long runs of equal sizes in processing order
+        # (OPT = k by construction); the decreasing heuristics must stay within 11/9 OPT + 6/9
+        if rng.random() < 0.15:
+            # three size classes (> 1/2, ~1/3, ~1/4 of the bin) in runs: the textbook shape on which a decreasing
+            # heuristic that places a run of equal items badly ends up above 11/9 OPT + 6/9
+            p = rng.choice([0, 0, 1])
+            u = rng.choice([1, 2, 3]) * 10 ** p
+            cap = 30 * u
+            s = [20 * u] * rng.randint(3, 5) + [11 * u] * rng.randint(1, 3) + [8 * u] * rng.randint(3, 6)
+            s = s[:12]
+            rng.shuffle(s)
+            return _bin_case(s, p, cap, al)
+        p = rng.choice([0, 0, 1])
+        unit = 10 ** p
+        cap = rng.choice([20, 24, 30, 36, 40, 60]) * unit
+        pool = sorted({rng.randint(2, cap // unit // 2) * unit for _ in range(rng.randint(2, 4))})
+        k = rng.randint(3, 7)
+        s = []
+        for _ in range(k):
+            # fill one bin exactly: greedy with pool sizes, remainder as its own item
+            left = cap
+            parts = []
+            while left > 0:
+                fit = [x for x in pool if x <= left]
+                if not fit or (parts and rng.random() < 0.15):
+                    parts.append(left)
+                    left = 0
+                else:
+                    x = rng.choice(fit)
+                    parts.append(x)
+                    left -= x
+            s += parts
+        rng.shuffle(s)
+        c = _bin_case(s, p, cap, al)
+        c["opt_known"] = k
         return c
     if stratum == "bin-large":
         n = rng.randint(13, 60)
